@@ -109,7 +109,7 @@ def main(tier="quick"):
     # action coverage of an exhaustive run
     res = runtime.model_check(dict(families.select_cases(2)[6], defects=[]), "C05", workers=4, timeout=300)
     cov = res.coverage()
-    need = ["Runtime!WorkerAct", "Runtime!EnvAct", "Runtime!Tick"]
+    need = ["Runtime!WorkerAct", "Runtime!EnvHandle", "Runtime!Tick"]
     expect("coverage: WorkerAct, EnvAct, Tick all taken", all(cov.get(a, (0, 0))[0] > 0 for a in need),
            str({a: cov.get(a) for a in need}))
     print("selftest", "PASSED" if ok else "FAILED")
